@@ -1,9 +1,10 @@
 use crate::impl_::gc_node::{GcNode, Tracer};
 use crate::impl_::node::IsNode;
-use crate::impl_::sodium_ctx::SodiumCtx;
+use crate::impl_::sodium_ctx::{SodiumCtx, SodiumCtxData};
 use crate::impl_::stream::Stream;
 
 use parking_lot::Mutex;
+use std::sync::atomic::Ordering;
 use std::sync::Arc;
 
 use super::name::NodeName;
@@ -91,6 +92,15 @@ impl<A: Clone + Send + 'static> StreamLoop<A> {
             data.looped = true;
             data.stream.add_dependency(s.clone());
             data.stream.add_update_dependencies(vec![s.to_dep()]);
+            // `s` was already visited in the current transaction (the loop is closed by a handler):
+            // it will not push its dependents again, have the loop's stream visited all the same
+            if s.node().data.visited.load(Ordering::SeqCst) {
+                let sodium_ctx = s.sodium_ctx();
+                let stream = data.stream.clone();
+                sodium_ctx.with_data(|ctx_data: &mut SodiumCtxData| {
+                    ctx_data.changed_nodes.push(stream.box_clone());
+                });
+            }
             {
                 let s = s.clone();
                 let s_out = Stream::downgrade(&data.stream);
